@@ -118,12 +118,18 @@ def table_outcomes(F, rep, q, kind, file_is_stream):
         if k == "via":      # the error of a private helper: each of the helper's own causes must be allowed here
             return all(allowed(c) for c in cause[2])
         return False
+    early = []
     for cause, t, st in prov.failure_causes(an):
         n_fail += 1
+        if an.truth(st.facts, T.bin("Eq", offt, T.const("u64", 0), "u64")) is not False:
+            early.append("%s %s" % (cause[0], [show(x)[:100] if isinstance(x, tuple) else x for x in cause[1:]]))
         if allowed(cause):
             continue
         k = cause[0]
         bad.append("%s %s" % (k, [show(x)[:140] if isinstance(x, tuple) else x for x in cause[1:]]))
+    rep.require(not early, "table-location", q + ":absent-never-fails", w,
+                "each of the %d failure outcomes is reached only with a non-zero offset field (an absent table is never refused)" % n_fail,
+                "%s can fail although %s == 0 says the table is absent (the checks apply to a present table only): %s" % (q, show(off), "; ".join(early)[:500]))
     rep.require(not bad, "table-location", q + ":failures", w, "%d failure outcomes, all implied by the header (conversion, entsize, overflow, declared bytes unreadable)" % n_fail,
                 "%s refuses the table under a condition the ELF header does not imply: %s" % (q, "; ".join(bad)[:600]))
 
@@ -147,6 +153,7 @@ def strtab_rule(F, rep, q, stream):
     me = P(1)
     ndx_field = T.proj(T.proj(T.deref(T.param(1)), _fld(F, "elf_stream::ElfStream" if stream else "elf_bytes::ElfBytes", "ehdr")), _fld(F, "file::FileHeader", "e_shstrndx"))
     seen = set()
+    n_none = 0
     for v, st in ok_outcomes(an):
         n = norm(v)
         strs = n[3][1] if n[0] == "agg" and len(n[3]) == 2 else None
@@ -157,7 +164,16 @@ def strtab_rule(F, rep, q, stream):
         is_x = an.truth(st.facts, T.bin("Eq", ndx_field, T.const("u16", XINDEX), "u16"))
         if strs == ("agg", "option::Option", "None", ()):
             seen.add("none")
-            continue   # no table / SHN_UNDEF / no section headers: allowed absent cases, checked below by presence of the other classes
+            n_none += 1
+            # completeness: "no string table" is answered only when e_shstrndx is SHN_UNDEF or there are no section headers at all
+            no_shdrs = n[3][0] == ("agg", "option::Option", "None", ()) or any(
+                (f[0] == "true" and isinstance(f[1], Term) and "is_empty" in pp(f[1]) and "shdrs" in pp(f[1]))
+                or (f[0] == "eq" and f[2] == 0 and isinstance(f[1], Term) and "len" in pp(f[1]) and "shdrs" in pp(f[1])) for f in st.facts)
+            rep.require(is_undef is True or no_shdrs, "shstrndx", q + ":absent#%d" % n_none, w,
+                        "no string table only for e_shstrndx == SHN_UNDEF or an absent section header table",
+                        "%s answers `no string table` under a condition other than e_shstrndx == SHN_UNDEF / no section headers: the table e_shstrndx designates is withheld"
+                        % q)
+            continue
         # Some(StringTable(buffer of shdrs[idx]))
         flds = prov.leaves_fields(strs)
         idx_direct = any(f == ("fld", ("fld", me, "ehdr"), "e_shstrndx") for f in flds)
@@ -244,6 +260,26 @@ def entsize_rule(F, rep):
                     "validate_entsize::<%s>(class, %s) succeeds on every path that yields the table" % (ty.split("::")[-1], field),
                     "%s does not validate %s against size_for::<%s>(class) on every success path (%s)" % (q, field, ty.split("::")[-1], detail))
     rep.floor("entsize-validated", "instances", n, 9 if "std" in F["config"]["features"] else 5)
+    # the rejection reaches the user: every in-crate caller of one of these functions turns its failure into its own failure (a caller
+    # that drops the error - `.ok()`, `unwrap_or`, `if let Ok` - answers "no table" / falls back for a table whose entry size is wrong)
+    from ..streamrules import result_propagated
+    qs = {q for q, _, _, _ in ENTSIZE_INSTANCES if F.fn(q) is not None}
+    ids = {F.fn(q)["id"]: q for q in qs}
+    n_sites = 0
+    for caller in F.all_fns():
+        if not any(blk["term"]["k"] == "call" and "indirect" not in blk["term"]["callee"]
+                   and (blk["term"]["callee"].get("resolved_id") or blk["term"]["callee"].get("id")) in ids for blk in caller["body"]["blocks"]):
+            continue
+        can = analyze_fn(F, caller)
+        for c in can.calls():
+            cq = ids.get(c.callee.get("resolved_id") or c.callee.get("id"))
+            if cq is None or c.block not in can.entry:
+                continue
+            n_sites += 1
+            okp, why = result_propagated(can, c)
+            rep.require(okp, "entsize-validated", "%s|caller:%s" % (cq, caller["qual"]), c.where(), "the rejection is propagated by %s (%s)" % (caller["qual"], why),
+                        "%s calls %s and does not turn its failure (a wrong entry size among them) into an error: %s" % (caller["qual"], cq, why))
+    rep.floor("entsize-validated", "callers of the validating functions", n_sites, 12 if "std" in F["config"]["features"] else 6)
     # the validator itself
     fn = F.fn("parse::ParseAt::validate_entsize")
     if fn is None:
